@@ -334,6 +334,37 @@ def simk_script(sc, rng=None):
             add("QUIESCE")
         elif k == "raw":           # literal simk line (directed scenarios)
             add(st[1])
+        elif k == "connect_http":  # HTTP connection without sending anything yet
+            transport[st[1]] = "ws"
+            add("CONNECT http %s" % st[2])
+        elif k == "partial":       # bytes that do not complete a message / line / frame
+            add("IN c%d %s%s" % (st[1], L.hexs(st[2]), (" " + st[3]) if len(st) > 3 and st[3] else ""))
+        elif k == "mixed":
+            # several events harvested in ONE epoll batch, dispatched in this order (first appearance of each handle)
+            handles = []
+            for sub in st[1]:
+                if sub[0] == "msg":
+                    add("+IN c%d %s" % (sub[1], L.hexs(frame_for(transport.get(sub[1], "raw"), sub[2]))))
+                    h = "c%d:IN" % sub[1]
+                elif sub[0] == "reply":
+                    add("+REPLY c%d %d %s" % (sub[1], sub[2], L.hexs(jtext(sub[3]) + b":" + jtext(sub[4]))))
+                    h = "c%d:IN" % sub[1]
+                elif sub[0] in ("eof", "rst"):
+                    add("+%s c%d" % (sub[0].upper(), sub[1]))
+                    h = "c%d:IN" % sub[1]
+                elif sub[0] == "err":
+                    add("+ERR c%d" % sub[1])
+                    h = "c%d:ERR" % sub[1]
+                elif sub[0] == "timer":
+                    h = "t%d:IN" % sub[1]
+                elif sub[0] == "advance":
+                    add("+ADVANCE %d" % sub[1])
+                    continue
+                else:
+                    raise ValueError(sub)
+                if h not in handles:
+                    handles.append(h)
+            add("EPOLL " + " ".join(handles))
         else:
             raise ValueError(st)
     return lines, smap
@@ -352,14 +383,22 @@ class ImplTrace:
         self.peers = [[] for _ in range(n)]      # (conn, addr)
         self.expired = [[] for _ in range(n)]
         self.replies = {}
+        self.reply_texts = {}     # scenario step -> {(conn, k): text}
         for step, text in log.replies.items():
             if 0 <= step < len(smap):
                 self.replies[smap[step]] = text
+        for step, c, kk, text in log.reply_list:
+            if 0 <= step < len(smap):
+                self.reply_texts.setdefault(smap[step], {})[(c, kk)] = text
+                self.replies.setdefault(("texts", smap[step]), {})[(c, kk)] = text
         self.transport = {}
         for st in sc.steps:
             if st[0] == "connect":
                 self.transport[st[1]] = st[2]
+            elif st[0] == "connect_http":
+                self.transport[st[1]] = "ws"
         pending_create = {}
+        self.ever_peer = set(ev[2] for ev in log.events if ev[1] == "PEER")
         for ev in log.events:
             step = ev[0]
             if step < 0 or step >= len(smap):
@@ -426,7 +465,8 @@ def model_script(sc, tr):
         rtf = 1 if b"routing table full" in reasons else 0
         for c, addr in tr.peers[si]:
             trn = tr.transport.get(c, "raw")
-            origin = next((s[3] for s in sc.steps if s[0] == "connect" and s[1] == c), "local6")
+            origin = next((s[3] for s in sc.steps if s[0] == "connect" and s[1] == c),
+                          next((s[2] for s in sc.steps if s[0] == "connect_http" and s[1] == c), "local6"))
             local = 1 if origin in LOCAL_ORIGINS else 0
             lines.append("connect %d %d %d %s" % (c, 1 if trn == "ws" else 0, local, C.hexs(addr.encode())))
             opmap.append(si)
@@ -462,6 +502,37 @@ def model_script(sc, tr):
             for t in tr.expired[si]:
                 lines.append("timer %d %s" % (t, sends if len(tr.expired[si]) == 1 else "="))
                 opmap.append(si)
+        elif k == "mixed":
+            order = []
+            for sub in st[1]:
+                h = ("t", sub[1]) if sub[0] == "timer" else (("c", sub[1]) if sub[0] != "advance" else None)
+                if h is not None and h not in order:
+                    order.append(h)
+            lines.append("oracle " + sends)
+            maxmsg = int(cfgv["CONFIG_MAX_MESSAGE_SIZE"])
+            for h in order:
+                # on one connection the queued data is read before the end of stream is seen
+                subs = [x for x in st[1] if x[0] not in ("advance", "eof", "rst", "err")] + [x for x in st[1] if x[0] in ("eof", "rst", "err")]
+                for sub in subs:
+                    if sub[0] == "advance":
+                        continue
+                    hh = ("t", sub[1]) if sub[0] == "timer" else ("c", sub[1])
+                    if hh != h:
+                        continue
+                    if sub[0] == "timer":
+                        lines.append("timer %d =" % sub[1])
+                    elif sub[0] in ("eof", "rst", "err"):
+                        lines.append("disc %d =" % sub[1])
+                    elif sub[0] == "msg":
+                        toks = parse_with_cjson_semantics(sub[2]) if isinstance(sub[2], bytes) else jtokens(sub[2])
+                        lines.append("msg %d = %d %d %s" % (sub[1], ixf, rtf, " ".join(toks) if toks else "!"))
+                    elif sub[0] == "reply":
+                        text = tr.reply_texts.get(si, {}).get((sub[1], sub[2]))
+                        if text is None:
+                            continue
+                        toks = parse_with_cjson_semantics(text)
+                        lines.append("msg %d = %d %d %s" % (sub[1], ixf, rtf, " ".join(toks) if toks else "!"))
+                    opmap.append(si)
         elif k == "quiesce":
             lines.append("dump")
             opmap.append(si)
@@ -621,7 +692,7 @@ def compare(sc, itr, mtr, strict_errors=False):
                     except Exception:
                         a.append((s[1], ("unparsable", s[3])))
             b = [(s[1], project(s[2], strict_errors)) for s in mtr.sends[si] if s[0] == c]
-            if st[0] in ("eof", "rst", "err", "advance") or itr.closed[si] or mtr.closed[si]:
+            if st[0] in ("eof", "rst", "err", "advance", "mixed") or itr.closed[si] or mtr.closed[si]:
                 # teardown/expiry order inside one table follows slot order, which the model abstracts
                 a = sorted(a, key=repr)
                 b = sorted(b, key=repr)
@@ -629,9 +700,11 @@ def compare(sc, itr, mtr, strict_errors=False):
                 dis.append({"step": si, "what": "messages to c%d differ" % c, "scenario_step": repr(st)[:300],
                             "impl": [(ok, show(v) if not (isinstance(v, tuple) and v[0] == "unparsable") else repr(v)) for ok, v in a],
                             "model": [(ok, show(v)) for ok, v in b]})
-        if sorted(itr.closed[si]) != sorted(mtr.closed[si]):
+        # connections that never became peers (HTTP exchanges that did not reach the upgrade) are not in the model
+        impl_closed = [c for c in itr.closed[si] if c in itr.ever_peer]
+        if sorted(impl_closed) != sorted(mtr.closed[si]):
             dis.append({"step": si, "what": "closed connections differ", "scenario_step": repr(st)[:300],
-                        "impl": sorted(itr.closed[si]), "model": sorted(mtr.closed[si])})
+                        "impl": sorted(impl_closed), "model": sorted(mtr.closed[si])})
         if sorted(itr.timers[si]) != sorted(mtr.timers[si]):
             dis.append({"step": si, "what": "timer operations differ", "scenario_step": repr(st)[:300],
                         "impl": sorted(itr.timers[si]), "model": sorted(mtr.timers[si])})
